@@ -24,7 +24,7 @@ LEVEL_TEXT = (
     "between; the simulated network shows which socket carried which request and which settings reached the socket/TLS seams. Contexts differing by keyword-not-given vs a falsy but meaningful value (ssl.CERT_NONE, assert_hostname=False, retries=False/0, socket_options=[]) are part of the grid. The keyword x scheme x mode grid is enumerated."
 )
 LEVEL_NOTE = "trusted: the value table for known keywords (unknown keywords get generic values and must be rejected or separate); observation of settings limited to what reaches a seam (bind, socket options, timeouts, TLS wrap arguments)"
-N = {"quick": 1100, "thorough": 9000}
+N = {"quick": 1200, "thorough": 9000}
 BUDGET = {"quick": 45, "thorough": 300}
 RULE = "index k -> (keyword, scheme, supply mode, in-between event, URL respelling) by enumeration of the grid then seeded repetition. Non-trivial = the keyword was accepted; distinct = distinct (keyword, scheme, mode, event, respelling)."
 ASSUMPTIONS = ["a keyword that raises TypeError (at pool creation or at the first request, before any I/O) counts as rejected"]
@@ -125,6 +125,7 @@ MODES = ["pool_kwargs", "ctor_default_A"]
 # "redirect": a request answered by a redirect whose Location names another host without a scheme (//other.test/...): the follow-up
 # belongs to another origin and must not travel on this origin's pool
 EVENTS = ["none", "evict", "idle_close", "respell", "redirect"]
+CTX_SENSITIVE = ["cert_reqs", "assert_hostname", "assert_fingerprint", "server_hostname", "key_password", "cert_file", "key_file", "ssl_minimum_version", "ssl_maximum_version"]
 
 
 def cases(seed, k, tier):
@@ -140,6 +141,9 @@ def cases(seed, k, tier):
     grid += [("retries", "http", mode, "none", "retry:" + f) for f in RETRY_FIELDS for mode in MODES]
     # a constructor default removed again for one request (pool_kwargs={kw: None}): the pool must be built without it
     grid += [(kw, scheme, "ctor_default_A", ev, "remove") for kw in REMOVABLE for scheme in ("http", "https") for ev in ("none", "evict") if not (kw in ("cert_reqs", "server_hostname") and scheme == "http")]
+    # the TLS keywords once more with a caller-supplied ssl_context among the settings both contexts share (so that a pair differs in
+    # exactly one keyword *given* another one): verify_mode, names and pins are applied to a caller's context too
+    grid += [(kw, "https", mode, ev, "ctx") for kw in CTX_SENSITIVE if kw in ks for mode in MODES for ev in ("none", "evict")]
     rng = rng_for(seed, ID, k)
     if k < len(grid):
         kw, scheme, mode, ev, fi = grid[k]
@@ -203,6 +207,9 @@ def run(sc: dict) -> Result:
         common = {"ca_certs": T.CA_GOOD} if (scheme == "https" and kw not in ("ca_certs", "ca_cert_data", "ssl_context", "ca_cert_dir")) else {}
         if scheme == "https" and kw in ("ca_cert_dir",):
             common = {"ca_certs": T.CA_GOOD}
+        if sc.get("flavour") == "ctx" and scheme == "https":
+            common = {"ssl_context": values("ssl_context")[0]()}
+            res.probes["shared_caller_context_in_both"] += 1
         rejected = None
         log = []  # (context label, pool object, outcome)
 
